@@ -21,11 +21,13 @@ func init() {
 			"(R6) lock pairing over the functions of package(s) updater: " + lockRuleText + ". " +
 			"(R7) at most one version is the current release: every store of a non-false value to ResourceVersion.CurrentRelease is preceded on every feasible path by a complete reset loop - a range over the resource's versions that clears the flag in every iteration and has no exit but the end of the range. " +
 			"(R8) error discipline over package updater: " + repoErrText + ". " +
+			"(R9) selectVersion decides afresh on every call: every exit has stored SelectedVersion in this call (nil only for an empty version list), so the last-resort stage is not conditional on an earlier selection. " +
 			"NOT decided: correctness over all version multisets, semantic-version ordering, the file-name regexes.",
 		Rules: []ruleFn{c19R1, c19R2, c19R3, c19R4, c19R5,
 			lockRuleFor("C19-R6", 20, []string{"updater"}, []string{}, map[string]string{"updater.(*RegistryState).StartOperation / s.operationLock": "StartOperation/EndOperation bracket an updater operation; EndOperation releases operationLock"}),
 			c19R7,
-			repoErrRuleFor("C19-R8", 30, func(c *Ctx, fn *ssa.Function) bool { return short(fn.Pkg.Pkg.Path()) == "updater" }, map[string]string{"updater.(*ResourceRegistry).fetchFile / utils/renameio.PendingFile.Cleanup": "deferred removal of the temp file is best effort; the temp dir is purged later"})},
+			repoErrRuleFor("C19-R8", 30, func(c *Ctx, fn *ssa.Function) bool { return short(fn.Pkg.Pkg.Path()) == "updater" }, map[string]string{"updater.(*ResourceRegistry).fetchFile / utils/renameio.PendingFile.Cleanup": "deferred removal of the temp file is best effort; the temp dir is purged later"}),
+			c19R9},
 	})
 }
 
@@ -591,4 +593,25 @@ func c19R7(c *Ctx, r *Report) {
 	for _, site := range c.StoresTo(owner, "CurrentRelease") {
 		r.Check(fnKey(site.Fn) == "updater.(*Resource).AddVersion", rule, fnKey(site.Fn)+" / writes CurrentRelease", "written by AddVersion only", "CurrentRelease is written outside AddVersion", c.Pos(site.Instr.Pos()))
 	}
+}
+
+func c19R9(c *Ctx, r *Report) {
+	const rule = "C19-R9"
+	r.SetFloor(rule, 1)
+	fn := c.Func("updater.(*Resource).selectVersion")
+	if fn == nil {
+		r.Undecided(rule, "updater.(*Resource).selectVersion", "anchor function missing")
+		return
+	}
+	isSel := func(in ssa.Instruction) bool {
+		st, ok := in.(*ssa.Store)
+		if !ok {
+			return false
+		}
+		fr, ok := fieldOfAddr(st.Addr)
+		return ok && fr.Owner == "updater.Resource" && fr.Name == "SelectedVersion"
+	}
+	p := ReachFromAvoiding(fn, nil, isExit, nil, isSel)
+	r.Check(p == nil, rule, "updater.(*Resource).selectVersion / every exit has stored the selection", "SelectedVersion is (re)assigned on every path",
+		"selectVersion can return without assigning SelectedVersion: a selection made under earlier registry flags survives, so the selected version depends on history instead of the documented order", c.pathString(p)...)
 }
